@@ -98,21 +98,32 @@ import jax.numpy as jnp, numpy as np
 from pysersic.rendering import FourierRenderer, sersic_gauss_decomp
 psf = np.zeros((3,3)); psf[1,1] = 1
 r = FourierRenderer((16,16), jnp.array(psf))
+rd = FourierRenderer((16,16), jnp.array(psf), use_interp_amps=False)      # the documented direct-decomposition option
 worst = 0.0
+worst_opt = 0.0
 for i in range(0, 50, 1):
     n = float(r.n_ax[i])
     a_int, s_int = r.get_amps_sigmas(1.0, 1.0, n)
     a_dir, s_dir = sersic_gauss_decomp(1.0, 1.0, n, r.etas, r.betas, r.frac_start, r.frac_end, r.n_sigma)
     worst = max(worst, float(jnp.abs(a_int - a_dir).max()), float(jnp.abs(s_int - s_dir).max() / jnp.abs(s_dir).max()))
-print(json.dumps({'worst': worst}))
+    if i % 7 == 0:
+        for (fl, re) in ((1.0, 1.0), (3.0, 2.0), (0.5, 4.5)):
+            a1, s1 = r.get_amps_sigmas(fl, re, n)
+            a2, s2 = rd.get_amps_sigmas(fl, re, n)
+            worst_opt = max(worst_opt, float(jnp.abs(a1 - a2).max()) / fl, float(jnp.abs(s1 - s2).max() / jnp.abs(s1).max()))
+print(json.dumps({'worst': worst, 'worst_opt': worst_opt}))
 """
     p = subprocess.run([sys.executable, "-W", "ignore", "-c", code], stdout=subprocess.PIPE, stderr=subprocess.PIPE, text=True, env=dict(os.environ))
     out = {"oracle": [], "stats": {}}
     try:
-        w = json.loads(p.stdout.strip().splitlines()[-1])["worst"]
+        js = json.loads(p.stdout.strip().splitlines()[-1])
+        w = js["worst"]
         out["stats"]["table_vs_direct"] = w
         if w > 1e-3:
             out["oracle"].append("interpolated table differs from the direct decomposition at a tabulated index by %.3g of the flux" % w)
+        out["stats"]["use_interp_amps_on_vs_off"] = js["worst_opt"]
+        if js["worst_opt"] > 1e-3:
+            out["oracle"].append("renderer with use_interp_amps=False differs from the default (interpolated) one at a tabulated index by %.3g of the flux (flux, r_eff != 1 included)" % js["worst_opt"])
     except Exception:
         out["oracle"].append("table-vs-direct comparison failed to run: " + p.stderr[-300:])
     return out
